@@ -6,19 +6,19 @@ sys.path.insert(0, os.path.join(d, "lib"))
 import decide
 
 TEXT = {
- "C01": ("proof", "Per-call contracts (exactly one reservation RMW; delivered positions = [b, clamp_end(b,n,len)) as a function of the value b the RMW returned, for ALL b, n, len) proved on the real bodies: Verus on slice / vec / array index logic, the for-loop wrappers and the ticket protocol of the wrapped iterator (get, progress, fetch_one, BufferIter::pull: any number of polls, any chunk size), all extracted verbatim on every run; loop-free full-domain Kani for the range kind. History lemmas K1/K2 (no duplicate, none lost) and the event-labelled protocol model with acceptance lemmas (T-once, T-none-lost) proved in Verus over those clauses. Bounded Kani stand-ins (never counted as discharged): memory effects of vec/array, the one-shot chunk pull of the wrapped iterator, std-level operation logs, sequential cursor.", "5 C01, 3.4"),
- "C02": ("proof", "Clauses idx == b, value == src[b], chunk begin_idx == b and contents == src[b..e] proved for all T (Verus, Seq equality) on the real bodies; range by loop-free full-domain Kani; wrapped iterator bounded.", "5 C02"),
- "C03": ("proof", "Chunk clauses nonempty / <= n / consecutive / exact length / short only at the end proved on fetch_n, next_chunk and Buffered*::pull (Verus; range: Kani complete); the inner buffered iterator of the wrapped-iterator kind (len == items still yielded, after partial consumption) in Verus; pull over a wrapped iterator bounded.", "5 C03"),
+ "C01": ("proof", "Per-call contracts (exactly one reservation RMW; delivered positions = [b, clamp_end(b,n,len)) as a function of the value b the RMW returned, for ALL b, n, len) proved on the real bodies: Verus on slice / vec / array index logic, the for-loop wrappers and the ticket protocol of the wrapped iterator (get, progress, fetch_one, fetch_n / next_chunk, BufferIter::pull: any number of polls, any chunk size), the cloned()/copied() adaptors' single pulls, all extracted verbatim on every run; loop-free full-domain Kani for the range kind. History lemmas K1/K2 (no duplicate, none lost) and the event-labelled protocol model with acceptance lemmas (T-once, T-none-lost) proved in Verus over those clauses. Bounded Kani stand-ins (never counted as discharged): memory effects of vec/array, the std adaptor chain inside the one-shot chunk pull of the wrapped iterator (trusted in Verus), adaptor chunk pulls, std-level operation logs, sequential cursor, for_each/fold.", "5 C01, 3.4"),
+ "C02": ("proof", "Clauses idx == b, value == src[b], chunk begin_idx == b and contents == src[b..e] proved for all T (Verus, Seq equality) on the real bodies; range by loop-free full-domain Kani; wrapped iterator: ticket == index and items in production order proved in Verus, contents cross-checked by bounded Kani.", "5 C02"),
+ "C03": ("proof", "Chunk clauses nonempty / <= n / consecutive / exact length / short only at the end proved on fetch_n, next_chunk and Buffered*::pull (Verus; range: Kani complete); the inner buffered iterator of the wrapped-iterator kind (len == items still yielded, after partial consumption) in Verus; one-shot and buffered pulls over a wrapped iterator: exact length, short only at the end, nothing on n == 0 proved in Verus (std adaptor chain trusted, cross-checked by bounded Kani); the owning chunk iterator of vec/array (next, size_hint, Drop) in Verus.", "5 C03"),
  "C04": ("proof", "History lemmas K2 (delivered set is a gap-free prefix), K3 (mo order = position order) over the L1 clauses, plus the frame clause 'a pull performs exactly one RMW'.  Real-time order is read through coherence (A1).  Sequential corollary cross-checked by a bounded Kani harness with the real atomics.", "5 C04"),
  "C05": ("proof", "L1 None <=> b >= len, try_get_len == 0 <=> c >= len; lemma K4 (once >= len, every later RMW returns >= len) in the no-wrap regime the property states.", "5 C05"),
  "C06": ("proof", "L1: skip_to_end performs exactly one write of a value >= len (and, for consumed vec/array, drops exactly the unreserved suffix); lemmas K4/K5: every later pull reports the end, no duplicate, order and indices unaffected.  Wrapped iterator: bounded Kani on the real code + protocol lemma.", "5 C06"),
- "C07": ("proof", "Ordering-discipline contract proved on the real bodies: the load of `yielded` that admits a ticket holder is at least Acquire, the RMW that publishes the holder's use of the wrapped iterator is at least Release (atomic_counter.rs and iter.rs / buffered/iter.rs in Verus, unbounded); the wrapped iterator is touched only between admission and publication (proved log language); mutual exclusion (T-mutex) over the event-labelled model whose per-thread automaton accepts exactly those languages (acceptance lemmas). The one-shot chunk pull's conformance is a bounded Kani check with the std atomics stubbed.", "5 C07"),
- "C08": ("model_checking", "Bounded model checking of contracts on the real crate: per-operation induction from an arbitrary counter value with a drop ledger (each element delivered or destroyed exactly once) for Vec<D> (len <= 3; 4 thorough), [D; 0/1/3], zero-sized elements, owning wrapped iterators, chunk iterators driven through nth; helper contracts (take_one / take_slice / split_off_right) checked on the real bodies; index-level ownership effects and the history lemma K7 (takes are disjoint and complementary to the final split) in Verus.", "5 C08"),
+ "C07": ("proof", "Ordering-discipline contract proved on the real bodies: the load of `yielded` that admits a ticket holder is at least Acquire, the RMW that publishes the holder's use of the wrapped iterator is at least Release (atomic_counter.rs and iter.rs / buffered/iter.rs in Verus, unbounded); the wrapped iterator is touched only between admission and publication (proved log language); mutual exclusion (T-mutex) over the event-labelled model whose per-thread automaton accepts exactly those languages (acceptance lemmas). The one-shot chunk pull and the length queries are under the same Verus contract (the queries never touch the wrapped iterator); bounded Kani checks with the std atomics stubbed cross-check them on the compiled code.", "5 C07"),
+ "C08": ("model_checking", "Bounded model checking of contracts on the real crate: per-operation induction from an arbitrary counter value with a drop ledger (each element delivered or destroyed exactly once) for Vec<D> (len <= 3; 4 thorough), [D; 0/1/3], zero-sized elements, owning wrapped iterators, chunk iterators driven through nth; helper contracts (take_one / take_slice / split_off_right) checked on the real bodies; index-level ownership effects and the history lemma K7 (takes are disjoint and complementary to the final split) in Verus; the owning chunk iterator TakenRange (next / size_hint / Drop, any chunk length: every offset moved out or destroyed exactly once) in Verus with the two raw-pointer accesses as trusted logged operations.", "5 C08"),
  "C09": ("proof", "Wait-free half: every known-size pulling function is loop- and recursion-free, terminates (Verus termination check on the real bodies) and performs exactly one atomic RMW whatever it returns ([ops] clauses; std-level Kani logs). Wrapped iterator: safety half (a holder that returns has published its whole reservation or set completed: proved; T-progress lemma); liveness under fairness is not claimed.", "5 C09"),
  "C10": ("proof", "L1 contract of into_seq_iter (slice: Verus, exact skip spec; range: Kani complete) + lemma K2 (remainder = [min(c,len), len) is disjoint from and complementary to the delivered set).  vec/array/wrapped: bounded Kani.", "5 C10"),
- "C11": ("proof", "L1: try_get_len is one load c and returns max(len - c, 0), has_more is No/Yes(n) from that (Verus on real bodies incl. the trait default has_more; range: Kani complete); lemmas K6 (never increases, zero is definitive), K2 (truthful at quiescence).", "5 C11"),
- "C12": ("model_checking", "Bounded Kani harnesses of for_each / enumerate_for_each / fold on the real code under monotone interference: the closure runs once per own reservation with the right index, the call returns only after observing the end.", "5 C12"),
- "C13": ("model_checking", "Forwarding methods of cloned()/copied() over a slice iterator under Verus contract (same effects on the underlying counter, same end / index / length answers); relational bounded Kani harness: the same operation on X.cloned()/X.copied() and on X from the same state gives equal indices, lengths, end/skip behaviour and cloned values, for slice and wrapped underlying iterators; adaptor chunk size complete.", "5 C13"),
+ "C11": ("proof", "L1: try_get_len is one load c and returns max(len - c, 0), has_more is No/Yes(n) from that (Verus on real bodies incl. the trait default has_more, and try_get_len / has_more of the wrapped iterator; range: Kani complete); lemmas K6 (never increases, zero is definitive), K2 (truthful at quiescence).", "5 C11"),
+ "C12": ("model_checking", "Bounded Kani harnesses of for_each / enumerate_for_each / fold on the real code under monotone interference: the closure runs once per own reservation with the right index, the call returns only after observing the end; over wrapped iterators with arbitrary size hints: every element once, in order, and the call returns (sequential).", "5 C12"),
+ "C13": ("model_checking", "Forwarding methods and single pulls (fetch_one / next, overrides included) of cloned()/copied() over a slice iterator under Verus contract (same effects on the underlying counter, same end / index / length answers); relational bounded Kani harness: the same operation on X.cloned()/X.copied() and on X from the same state gives equal indices, lengths, end/skip behaviour and cloned values, for slice and wrapped underlying iterators; adaptor pulls under arbitrary interference (havoc'd counter) derive everything from their own fetch_add; adaptor chunk size complete.", "5 C13"),
  "C15": ("model_checking", "CBMC --memory-leak-check as a postcondition of the per-operation harnesses ending in drop / into_seq_iter (vec, array), plus the ledger clause 'never neither'.  Bounded in length.", "5 C15"),
  "C16": ("proof", "Every + and - of the verbatim bodies carries Verus's overflow obligation, verified WITHOUT the no-wrap assumption over the full usize domain; the range kind and buffered pulls by loop-free full-domain Kani with overflow checks; chunk size 0 clauses.", "5 C16"),
  "C17": ("proof", "(a) all arithmetic proved overflow-free and every debug_assert proved => debug and release agree (same obligations as C16); (b) documented safety preconditions of the std operations written as stub contracts and asserted at every call site (Kani, bounded in length, complete in scalars).", "5 C17"),
